@@ -28,6 +28,19 @@ def run(out, tier, seed):
         stats[name] = json.loads(p.stdout.strip().splitlines()[-1])
         events, r = trace.validate(out, f, "c16-" + name)
         total_events.append(events)
+    # paseto-v1's RSA paths (getrandom 0.2 / OsRng) under the LD_PRELOAD shim
+    shim = os.path.join(C.BUILD, "getrandom_shim.so")
+    src = os.path.join(C.HARNESS_DIR, "shim", "getrandom_shim.c")
+    if not os.path.exists(shim) or os.path.getmtime(shim) < os.path.getmtime(src):
+        import subprocess
+        r = subprocess.run(["cc", "-shared", "-fPIC", "-O1", "-o", shim, src, "-ldl"], stdout=subprocess.PIPE, stderr=subprocess.STDOUT, text=True)
+        if r.returncode != 0:
+            raise C.ToolError("cannot build the getrandom shim: " + r.stdout[-400:])
+    f = os.path.join(d, "rsa-faults.ndjson")
+    p = C.harness(["rsa-faults", "--out", f, "--tier", tier, "--seed", str(seed)], timeout=900, env_extra={"LD_PRELOAD": shim})
+    stats["rsa-faults"] = json.loads(p.stdout.strip().splitlines()[-1])
+    events, r = trace.validate(out, f, "c16-rsa-faults")
+    total_events.append(events)
     out.extra["harness"] = stats
     faults = draws = ops_with_draws = fresh_vals = 0
     fresh_seen = set()
@@ -61,5 +74,5 @@ def run(out, tier, seed):
             out.samples.append(ev[max(0, i - 2):i + 3])
     out.assumptions += [
         "aws-lc's SystemRandom and libsodium's RNG cannot be failed from outside the process without patching them: for paseto-v3-aws-lc and paseto-v4-sodium only freshness is checked",
-        "paseto-v1's RSA paths (PSS salt, key generation) draw through getrandom 0.2 / OsRng, which the getrandom-0.3 custom backend does not intercept: their failure behaviour is not exercised here (see DESIGN.md, finding on OsRng panics)",
+        "paseto-v1's RSA paths (PSS salt, key generation) are failed at the system-call level through an LD_PRELOAD interposer (harness/shim/getrandom_shim.c); RSA key generation makes ~150 draws, of which the first few indices are failed",
     ]
